@@ -45,7 +45,7 @@ def connect_n(s: G.Script, n: int, ids: Optional[List[int]] = None, loggers: Ite
 # ----------------------------------------------------------------------------------------------------------------
 
 def random_script(rng, n_clients: int, n_rounds: int, malformed: float = 0.03, failp: float = 0.04,
-                  big: bool = False) -> G.Script:
+                  big: bool = False, notice_heavy: bool = False) -> G.Script:
     cd = cdm()
     s = G.Script()
     conn_guess: Dict[int, int] = {}       # uid -> requested id (guess: connected)
@@ -53,6 +53,9 @@ def random_script(rng, n_clients: int, n_rounds: int, malformed: float = 0.03, f
     subtypes = T + [cd.ALL_MESSAGE_TYPES, cd.MT_FAILED_MESSAGE, cd.MT_CLIENT_CLOSED, cd.MT_CLIENT_INFO,
                     cd.MT_TIMING_MESSAGE, cd.MT_MESSAGE_TRAFFIC, cd.MT_ACTIVE_CLIENTS, cd.MT_ACKNOWLEDGE,
                     cd.MT_RTMA_LOG_INFO, cd.MT_RTMA_LOG_ERROR, cd.MT_RTMA_LOG_WARNING]
+    if notice_heavy:      # many listeners to the manager's own notices, frequent non-writability and failures
+        subtypes = [5000, 5000, cd.MT_FAILED_MESSAGE, cd.MT_FAILED_MESSAGE, cd.MT_CLIENT_CLOSED, cd.MT_CLIENT_CLOSED,
+                    cd.MT_CLIENT_INFO, cd.ALL_MESSAGE_TYPES, cd.MT_RTMA_LOG_ERROR, cd.MT_TIMING_MESSAGE]
     names = [b"", b"", b"a", b"b", b"message_manager", b"x" * 31]
     idpool = [0, 0, 0, 10, 11, 12, 12, 50, 100, 101, -1, 200, 1, 32767]
 
@@ -119,7 +122,7 @@ def random_script(rng, n_clients: int, n_rounds: int, malformed: float = 0.03, f
         reads = [one_read(u) for u in readers]
         n_after = s.nconn + (1 if acc else 0)
         allu = list(range(1, n_after + 1))
-        w = allu if rng.random() < 0.6 else [u for u in allu if rng.random() < 0.6]
+        w = allu if rng.random() < (0.25 if notice_heavy else 0.6) else [u for u in allu if rng.random() < 0.6]
         fail = {}
         if rng.random() < failp and allu:
             fail[rng.choice(allu)] = rng.choice(["hdr", "pay", "hdr", None])
@@ -209,14 +212,57 @@ def directed() -> Iterator[Tuple[str, G.Script]]:
     s.round([s.rd(5, cd.MT_DISCONNECT)])
     s.round([s.rd(102, cd.MT_CONNECT_V2, G.p_connect_v2(mod_id=0, name=b"late"))])
     s.round([s.rd(103, cd.MT_CONNECT, G.p_connect())])
-    yield "dynamic_ids_exhausted_and_wrap", s
+    s.round(dt=1000); s.round(dt=6000)
+    yield "dynamic_ids_exhausted_and_wrap", probe(s)
     s = G.Script()
-    for i in range(130):
-        s.accept(1); u = s.nconn
-        s.round([s.rd(u, cd.MT_CONNECT, G.p_connect())], writable=[u])
-        if i % 3 != 0:
-            s.round([s.rd(u, cd.MT_DISCONNECT)])
-    yield "dynamic_id_churn", probe(s)
+    for keep in (3, 7):
+        s = G.Script()
+        for i in range(130):
+            s.accept(1); u = s.nconn
+            s.round([s.rd(u, cd.MT_CONNECT, G.p_connect())], writable=[u])
+            if i % keep != 0 and i not in (99, 100, 101):
+                s.round([s.rd(u, cd.MT_DISCONNECT)])
+            if i % 10 == 9 or i in (100, 101):
+                s.round(dt=1000)        # statistics tick while whoever holds the latest ids is still connected
+        s.round(dt=6000)
+        yield f"dynamic_id_churn_{keep}", probe(s)
+
+    # --- re-entrancy: while a manager-originated message is being delivered, the failure handling publishes further
+    # manager messages which are themselves undeliverable somewhere
+    for order_first in ("failing", "healthy"):
+        for zkind in ("closed", "all", "sameA", "logger"):
+            for fm in ("hdr", "pay"):
+                s = G.Script(); connect_n(s, 7, ids=[10, 11, 12, 13, 14, 15, 16], loggers=[7] if zkind == "logger" else [])
+                A, Y1, Y2, Z, Y3 = 2, 3, 4, 5, 6
+                s.round([s.rd(A, cd.MT_SUBSCRIBE, G.p_i32(5000))])
+                ys = (Y1, Y2, Y3) if order_first == "failing" else (Y2, Y1, Y3)
+                for y in ys:
+                    s.round([s.rd(y, cd.MT_SUBSCRIBE, G.p_i32(cd.MT_FAILED_MESSAGE))])
+                if zkind == "closed":
+                    s.round([s.rd(Z, cd.MT_SUBSCRIBE, G.p_i32(cd.MT_CLIENT_CLOSED))])
+                elif zkind == "all":
+                    s.round([s.rd(Z, cd.MT_SUBSCRIBE, G.p_i32(cd.ALL_MESSAGE_TYPES))])
+                elif zkind == "sameA":
+                    s.round([s.rd(A, cd.MT_SUBSCRIBE, G.p_i32(cd.MT_CLIENT_CLOSED))])
+                else:
+                    s.round([s.rd(7, cd.MT_SUBSCRIBE, G.p_i32(cd.MT_CLIENT_CLOSED))])
+                nonw = {A, Z} if zkind != "logger" else {A}
+                w = [u for u in range(1, 8) if u not in nonw]
+                s.round([s.rd(1, 5000, b"undeliverable-to-A", src=10)], writable=w, fail={Y1: fm})
+                s.round([s.rd(1, 5000, b"again", src=10)], writable=w)
+                yield f"nested_notice_{order_first}_{zkind}_{fm}", probe(s)
+    # the same while a periodic message (TIMING / ACTIVE_CLIENTS / CLIENT_INFO) is going out
+    for watch in (cd.MT_TIMING_MESSAGE, cd.MT_CLIENT_INFO, cd.MT_ACTIVE_CLIENTS, cd.MT_MESSAGE_TRAFFIC):
+        for fm in ("hdr", "pay"):
+            s = G.Script(); connect_n(s, 5)
+            for u in (2, 3, 4):
+                s.round([s.rd(u, cd.MT_SUBSCRIBE, G.p_i32(watch))])
+            s.round([s.rd(5, cd.MT_SUBSCRIBE, G.p_i32(cd.MT_CLIENT_CLOSED))])
+            s.round([s.rd(4, cd.MT_SUBSCRIBE, G.p_i32(cd.MT_FAILED_MESSAGE))])
+            s.round([s.rd(1, 5000, b"x")])
+            s.round([s.rd(1, 5001, b"y")], dt=6000, writable=[1, 2, 3, 4], fail={2: fm})
+            s.round([s.rd(1, 5001, b"z")], dt=1500)
+            yield f"nested_periodic_{watch}_{fm}", probe(s)
 
     # --- C06: identity matrix
     combos = [(a, am1, n1, b, am2, n2) for a in (12, 100) for am1 in (0, 1) for n1 in (b"", b"nm")
